@@ -62,6 +62,7 @@ type World struct {
 	httpErrors []*Term
 	reqDone    *ChanObj
 	jwtOutcome string
+	jwtNext    *IfaceV
 	durMs      map[int]*Term
 	tablesDropped, dbClosed int
 	removed    []*Term
